@@ -189,9 +189,11 @@ def handleFeval (j : Json) : Option Json := do
   | "sqsetdist" => some (ok (jF (sqSetDist cplx (← fFloats? j "x") (← fFloats? j "p"))))
   | "proxavg" =>
     let n ← fNat? j "n"
-    let ws := proxAvgWeights n.toFloat (← optFloats? j "alphas") n
-    some (ok (jObj [("weights", jFs ws),
-      ("value", jF (proxAvgEval Float.isInf (← fBool? j "noinf") ws (← fFloats? j "vals")))]))
+    match proxAvgInit n.toFloat (← optFloats? j "alphas") n with
+    | none => some (err "value")
+    | some ws =>
+      some (ok (jObj [("weights", jFs ws),
+        ("value", jF (proxAvgEval Float.isInf (← fBool? j "noinf") ws (← fFloats? j "vals")))]))
   | "sql2loss" =>
     some (ok (jF (sqL2Loss cplx (← fFloat? j "scale") (← optFloats? j "w") (← fFloats? j "y") (← fFloats? j "ax"))))
   | "sql2absloss" =>
@@ -235,6 +237,15 @@ def handler : Handler := fun op j =>
     let cplx ← fBool? j "cplx"
     some (ok (jFs (sqL2DiagProx cplx (← fFloat? j "scale") (← fFloat? j "lam") (← optFloats? j "w")
       (← fFloats? j "a") (← fFloats? j "y") (← fFloats? j "v"))))
+  | "lossflags" => do
+    let c ← match ← fStr? j "cls" with
+      | "generic" => some LossCls.generic | "sql2" => some .sqL2 | "sql2abs" => some .sqL2Abs
+      | "sql2sqabs" => some .sqL2SqAbs | "poisson" => some .poisson | _ => none
+    let A ← match ← fStr? j "A" with
+      | "identity" => some OpCls.identity | "sid" => some .scaledIdentity | "diag" => some .diagonal
+      | "linear" => some .linear | "nonlinear" => some .nonlinear | _ => none
+    let fl := lossClsFlags c A (← fBool? j "ynonneg")
+    some (ok (jObj [("he", jB fl.1), ("hp", jB fl.2)]))
   | "sql2res" => do
     some (ok (jFs (sqL2Residual (← fFloat? j "scale") (← fFloat? j "lam") (← fFloatss? j "A") (← fNat? j "ncols")
       (← fFloats? j "w") (← fFloats? j "y") (← fFloats? j "v") (← fFloats? j "x"))))
